@@ -150,6 +150,15 @@ def verify(cs, path, old, new, old_props, new_props, must_be_new=False):
         if not (is_old or is_new):
             diffs = [n for n in set(old) | set(new) | set(state) if not (n in state and ((n in old and same(n, old[n], state[n])) or (n in new and same(n, new[n], state[n])))) and not (n not in state and (n not in old or n not in new))]
             return "neither-old-nor-new", f"members {sorted(state)}; old {sorted(old)}; new {sorted(new)}; differing: {diffs[:3]}; e.g. {state.get(diffs[0], b'<absent>')[:120]!r}" if diffs else f"members {sorted(state)} old {sorted(old)} new {sorted(new)}"
+        if kind != "vdir":
+            # the collection tag (ctag / sync-token / collection ETag) must name the state that is served
+            try:
+                ctag = store.get_ctag()
+                via = {name: etag for name, ct, etag in store.iter_with_etag(ctag) if name != ".xandikos"}
+            except Exception as e:
+                return "ctag-unusable", f"get_ctag / iter_with_etag(ctag): {type(e).__name__}: {e}"
+            if via != {n: e for n, e in listed.items() if n != ".xandikos"}:
+                return "ctag-names-other-state", f"the collection tag {ctag} lists {sorted(via.items())[:4]} but the store serves {sorted(listed.items())[:4]}"
         props = read_props(store)
         for p in PROPS:
             if props[p] not in (old_props[p], new_props[p]):
